@@ -37,11 +37,12 @@ LEVEL_TEXT = ("Coq theorems over the reals about the executable Gallina model (c
               "are the unique solution with eval r1 t1 = eval r2 t2; in 3-D, if the lines meet the returned parameters are exactly the meeting parameters "
               "and the status is INTERSECT; status COLINEAR iff all cross-product components are below the tolerance, INTERSECT/SKEW iff the evaluated "
               "points are closer than / at least the tolerance; proportional directions give COLINEAR; [G] convex_hull returns a subset of the input and "
-              "both half hulls turn strictly left at every vertex; [G] a voxel is marked 1 iff some point lies in its padded half-open box, flags are "
+              "both half hulls turn strictly left at every vertex, and EVERY INPUT POINT LIES ON OR LEFT OF EVERY DIRECTED HULL EDGE (round 2, Proofs/HullContains.v, "
+              "monotone-chain stack invariant; points need the two coordinates the code reads); [G] a voxel is marked 1 iff some point lies in its padded half-open box, flags are "
               "computed voxel by voxel (multi-process = single-process function), the generated grid covers the bounding box; [G] find_ctrlpts returns the "
               "p+1 points starting at span-p and every control point with a non-zero Cox-de Boor basis function at the parameter is among them. "
               "BOUNDED/PARTIAL: the winding-number theorem is proved only for axis-parallel rectangles (exact half-open characterisation); general simple "
-              "polygons, 'every input point lies inside the hull' and the skew status for non-meeting 3-D rays are checked by the exact Fraction oracles on "
+              "polygons and the skew status for non-meeting 3-D rays are checked by the exact Fraction oracles on "
               "every run, not proved.")
 LEVEL_NOTE = ("Trusted: Coq 8.16.1 kernel incl. vm_compute; standard-library real-number axioms as printed by Print Assumptions; the model is tied "
               "to /repo by the sampled correspondence check; float predicates are compared on integer/dyadic inputs where they are exact (the property's own "
